@@ -17,26 +17,26 @@ import (
 // channel fields by type and by how the constructor makes them, goroutine
 // bodies as the targets of the constructor's go statements.
 type tlInfo struct {
-	p        *core.Prog
-	Named    *types.Named
-	TaskI    *types.Named
-	Fns      []*ssa.Function
-	Ctor     *ssa.Function // inlined view, like Queue, Worker, Push and Status (compare with sameFn)
+	p          *core.Prog
+	Named      *types.Named
+	TaskI      *types.Named
+	Fns        []*ssa.Function
+	Ctor       *ssa.Function   // inlined view, like Queue, Worker, Push and Status (compare with sameFn)
 	AliasElems []*ssa.Store    // stores into a lane-list element of something that is not a fresh channel
 	ElemChans  []*ssa.MakeChan // channels made for lane-list elements
 	elemField  map[*ssa.MakeChan]*types.Var
-	Buffered *types.Var    // []chan Task made with non-zero capacity
-	Blocking *types.Var    // []chan Task made with capacity 0
-	Shared   *types.Var    // chan Task
-	Ctx      *types.Var
-	WG       *types.Var
-	Queue    *ssa.Function // goroutine body that drains the buffered queue
-	Worker   *ssa.Function // goroutine body that runs tasks
-	Push     *ssa.Function
-	Status   *ssa.Function
-	GoSites  []*ssa.Go
-	Views    []pkgView
-	problems []string
+	Buffered   *types.Var // []chan Task made with non-zero capacity
+	Blocking   *types.Var // []chan Task made with capacity 0
+	Shared     *types.Var // chan Task
+	Ctx        *types.Var
+	WG         *types.Var
+	Queue      *ssa.Function // goroutine body that drains the buffered queue
+	Worker     *ssa.Function // goroutine body that runs tasks
+	Push       *ssa.Function
+	Status     *ssa.Function
+	GoSites    []*ssa.Go
+	Views      []pkgView
+	problems   []string
 
 	owner       map[*types.Var]string // channel field → name of the struct that declares it
 	Containers  []*types.Var          // slice fields of TaskLane that hold the per-lane objects
@@ -315,6 +315,11 @@ func resolveTaskLane(p *core.Prog) *tlInfo {
 				for _, d := range direct {
 					if d == f {
 						note(f, mc)
+						t.ElemChans = append(t.ElemChans, mc)
+						if t.elemField == nil {
+							t.elemField = map[*ssa.MakeChan]*types.Var{}
+						}
+						t.elemField[mc] = f
 					}
 				}
 			}
